@@ -253,10 +253,11 @@ def restoreBackup (s : Server) (b : Backup) (pathReq pathResp : Bool) : Server Ã
       | some bh =>
         -- the server answers RETR with a STOR; it is stored under downloads/ unless a file of that name is already there
         let s2 := if pathResp then { s1 with downloads := match s1.downloads with | some d => some d | none => some bh } else s1
-        -- RETR is reported OK whether or not the STOR arrived: the live file is deleted, then downloads/ is copied
+        -- RETR is reported OK whether or not the STOR arrived; the (repaired) code then checks that a file is present
+        -- under downloads/ before it deletes the live file and copies the download over it
         match s2.downloads with
         | some d => ({ s2 with file := some d, health := .good }, true)
-        | none => ({ s2 with file := none }, false)
+        | none => (s2, false)
 
 /-! ### requests on the database service (validators of service.py, then the method) -/
 
@@ -313,29 +314,35 @@ def Server.fileRepair (s : Server) : Server Ã— Bool :=
 
 /-! ### one tick -/
 
-/-- Server part of a tick, at time `t` (the value passed to `apply_timestep`). -/
-def serverTick (s : Server) (b : Backup) (t : Nat) (pathReq pathResp : Bool) : Server Ã— Backup :=
+/-- countdowns of the node, then start-up / shut-down actions on the service -/
+def Server.tickPower (s : Server) : Server :=
   let r := s.node.tick
   let s := { s with node := r.1 }
-  -- start-up / shut-down actions
   let s := if r.2.1 then
       let x := svcStart true s.op s.health; { s with op := x.1, health := x.2.1 } else s
-  let s := if r.2.2 then { s with op := (svcStop s.op).1 } else s
+  if r.2.2 then { s with op := (svcStop s.op).1 } else s
+
+/-- `Software.apply_timestep`: fixing countdown (decrement, then test `<= 0`); `DatabaseService._update_fix_status`
+restores the backup when the fix completes -/
+def Server.tickFix (s : Server) (b : Backup) (pathReq pathResp : Bool) : Server :=
+  if s.health = .fixing then
+    if s.fixCd â‰¤ 1 then (restoreBackup { s with health := .good, fixCd := 0 } b pathReq pathResp).1
+    else { s with fixCd := s.fixCd - 1 }
+  else s
+
+/-- `Service.apply_timestep`: restart countdown (test `<= 0`, then decrement) -/
+def Server.tickRestart (s : Server) : Server :=
+  if s.op = .restarting then
+    if s.restartCd = 0 then { s with op := .running } else { s with restartCd := s.restartCd - 1 }
+  else s
+
+/-- Server part of a tick, at time `t` (the value passed to `apply_timestep`): node countdowns; then, only while the
+node is ON: backup at timestep 1, fixing countdown (+ restore), restart countdown. -/
+def serverTick (s : Server) (b : Backup) (t : Nat) (pathReq pathResp : Bool) : Server Ã— Backup :=
+  let s := s.tickPower
   if !s.node.isOn then (s, b) else
-  -- DatabaseService.apply_timestep: backup at timestep 1
   let sb : Server Ã— Backup := if t = 1 then let x := backupDatabase s b pathReq; (x.1, x.2.1) else (s, b)
-  let s := sb.1
-  let b := sb.2
-  -- Software.apply_timestep: fixing countdown (decrement, then test), restore when it completes
-  let s := if s.health = .fixing then
-      if s.fixCd â‰¤ 1 then (restoreBackup { s with health := .good, fixCd := 0 } b pathReq pathResp).1
-      else { s with fixCd := s.fixCd - 1 }
-    else s
-  -- Service.apply_timestep: restart countdown (test, then decrement)
-  let s := if s.op = .restarting then
-      if s.restartCd = 0 then { s with op := .running } else { s with restartCd := s.restartCd - 1 }
-    else s
-  (s, b)
+  ((sb.1.tickFix sb.2 pathReq pathResp).tickRestart, sb.2)
 
 def backupTick (b : Backup) : Backup :=
   let r := b.node.tick
